@@ -77,6 +77,7 @@ func Load(repo, goos, goarch string, overlay map[string][]byte) (*Prog, error) {
 	if err != nil {
 		return nil, err
 	}
+	resolveRenames(pkgs)
 	// helper transparency: inline functions the baseline does not know (see normalize.go); never on the unchanged tree
 	normalized := 0
 	for round := 0; round < 3 && Baseline != nil; round++ {
@@ -183,8 +184,18 @@ func (p *Prog) Func(pkg, name string) *ssa.Function {
 		return nil
 	}
 	if !strings.Contains(name, ".") {
-		return sp.Func(name)
+		if f := sp.Func(name); f != nil || oldToNew == nil {
+			return f
+		}
+		return p.renamedFunc(pkg, name)
 	}
+	if f := p.methodFunc(sp, name); f != nil || oldToNew == nil {
+		return f
+	}
+	return p.renamedFunc(pkg, name)
+}
+
+func (p *Prog) methodFunc(sp *ssa.Package, name string) *ssa.Function {
 	recv, meth := name[:strings.LastIndex(name, ".")], name[strings.LastIndex(name, ".")+1:]
 	recv = strings.Trim(recv, "()")
 	ptr := strings.HasPrefix(recv, "*")
@@ -339,5 +350,14 @@ func FnName(fn *ssa.Function) string {
 	}
 	s := fn.String()
 	s = strings.ReplaceAll(s, ModPath+"/", "")
+	if len(renamedDisplay) > 0 {
+		root, rest := s, ""
+		if i := strings.Index(s, "$"); i >= 0 {
+			root, rest = s[:i], s[i:]
+		}
+		if old, ok := renamedDisplay[root]; ok {
+			return old + rest
+		}
+	}
 	return s
 }
